@@ -808,6 +808,9 @@ class FM:
                 w = ws[0]
                 if w.how not in ("init", "assign"):
                     continue
+                if kind(strip(w.val)) in ("InitListExpr", "ImplicitValueInitExpr") or \
+                        "[" in self.locals[v].get("type", {}).get("qualType", ""):
+                    continue        # an aggregate (brace-initialised array / record): its elements are memory, not a scalar value
                 inv = self._pure(w.val, self.invariant)
                 if not inv and not (self.copies and self._pure(w.val, self.invariant | self.frozen_at(w.node, v))):
                     continue
@@ -1909,6 +1912,7 @@ class Dec:
             raise AnalysisError("%s(): address of `%s` taken (aliasing not modelled)" % (FN, sorted(fm.addr)[0]))
         # scratch arrays
         self.arrays = {}        # name -> extent term
+        self.preset = {}        # brace-initialised scratch array -> set of initial element values | None (not constant)
         for nm, vd in fm.locals.items():
             qt = vd.get("type", {}).get("qualType", "")
             m = re.fullmatch(r"(.+?)\s*\[(.*)\]", qt)
@@ -1916,6 +1920,13 @@ class Dec:
                 if "[" in m.group(1):
                     raise AnalysisError("multi-dimensional local `%s`" % nm)
                 self.arrays[nm] = (m.group(1).strip(), m.group(2).strip(), self.extent_term(m.group(2)))
+                ini = [w for w in fm.writes.get(nm, []) if w.how == "init"]
+                if ini:
+                    # brace initialiser: the values an element holds before it is filled (omitted elements are zero)
+                    iv = fm.tu.init_value(ini[0].val)
+                    flat = iv if isinstance(iv, list) else [iv]
+                    self.preset[nm] = {0} | {0 if x is None else x for x in flat} if all(
+                        x is None or (isinstance(x, int) and not isinstance(x, bool)) for x in flat) else None
             elif "*" in qt:
                 raise AnalysisError("%s(): local pointer `%s` (aliasing not modelled)" % (FN, nm))
         # every use of a pointer parameter / array is a subscript base or a deref
@@ -2283,17 +2294,31 @@ class Dec:
         if sub[0] != "v":
             raise AnalysisError("element index `%s` unclassifiable" % X.show(sub))
         init = any(a[0] == ("cmp", "<", sub, X.V(cnt)) and a[1] and fm.stable(node, a, [sub[1], cnt]) for a in fm.atoms(node))
+        pre = None
         if not init:
-            return False, "`%s[%s]` is read without the guard `%s < %s` (entry may be unset)" % (arr, sub[1], sub[1], cnt)
+            if arr not in self.preset:
+                return False, "`%s[%s]` is read without the guard `%s < %s` (entry may be unset)" % (arr, sub[1], sub[1], cnt)
+            pre = self.preset[arr]      # an entry that is not filled holds the value of the brace initialiser
+            if pre is None:
+                raise AnalysisError("%s(): `%s[%s]` may hold an initial value the rule cannot fold" % (FN, arr, sub[1]))
         w, lv = self.stores[arr][0]
         vt = fm.lower(w.val)
         try:
+            if pre and (base == self.P_MA or base in self.arrays):
+                raise AnalysisError("%s(): a brace-initialised entry `%s[%s]` indexes `%s` (extent depends on the length)" % (
+                    FN, arr, sub[1], base))
+            for val in sorted(pre or ()):
+                for lenv in (MAXLEN,):
+                    if not 0 <= val < self.ext_value(base, lenv):
+                        return False, "initial value %d of `%s` outside extent %d" % (val, arr, self.ext_value(base, lenv))
             for pt in fm.points(w.node, self.P_LEN, free_vars(vt) | {self.P_LEN}):
                 val, ext = ev(vt, pt), self.ext_value(base, pt[self.P_LEN])
                 if not 0 <= val < ext:
                     return False, "stored value %d outside extent %d at %s" % (val, ext, fmt_pt(pt))
         except Unknown as u:
             raise AnalysisError("value stored into `%s` depends on `%s`: cannot be bounded" % (arr, u))
+        if pre is not None:
+            return True, "`%s[%s]` is a stored value or an initial value (%s), all in range" % (arr, sub[1], brief(sorted(pre)))
         return True, "`%s[%s]` is set (guard `%s < %s`) and every stored value is in range" % (arr, sub[1], sub[1], cnt)
 
 
@@ -2640,9 +2665,20 @@ def r4_order(L, D):
         ends = bool(lim) and all(H.id not in fm.reach_succ(c, label=(not l)) for (c, l) in lim)
         other = []
         h_atoms = {(a[0], a[1]) for a in fm.atoms(H)}
+
+        def by_content(ats):
+            """a condition that reads an element of a brace-initialised scratch list (an unfilled slot has a defined value there,
+            so "past the list" may be told by the content): what it means depends on the values stored -- not an index test"""
+            return [t for (t, _) in ats if any(u[0] == "idx" and u[1][0] == "v" and u[1][1] in D.preset for u in subterms(t))]
+        if not lim and by_content(h_atoms):
+            raise AnalysisError("%s(): the emission is guarded by the content of the brace-initialised list (`%s`), not by an index "
+                                "below the number of entries" % (FN, X.show(by_content(h_atoms)[0])[:50]))
         for (x, ats) in exits_of(fm, l2):
             if any(t == ("cmp", "<", X.V(b), X.V(cnt)) and not p for (t, p) in ats):
                 continue
+            if not lim and by_content(ats):
+                raise AnalysisError("%s(): the bitmap walk is left on the content of the brace-initialised list (`%s`)" % (
+                    FN, X.show(by_content(ats)[0])[:50]))
             caps = cap_tests(ats, D.is_cnt_term, {D.P_LEN} | fm.dvars(x))
             verdict = cap_exit(fm, D, l2, dom, caps) if caps else None
             if verdict is None or (not verdict[0] and not all(a in h_atoms or is_cap(a, D.is_cnt_term) for a in ats)):
@@ -4351,6 +4387,7 @@ CELL_ALLOCATIONS = [
     ("ARFCN 5 only", [5]),
     ("ARFCN 0, 1 and 1023", [0, 1, 1023]),
     ("9 channels with ARFCN 0", [0, 3, 10, 20, 30, 40, 50, 60, 1023]),
+    ("E-GSM cell: ARFCN 5, 17, 42, 975, 1000 and 0", [5, 17, 42, 975, 1000, 0]),    # the flagged ARFCN 0 is the LAST entry (value 0)
 ]
 LONG_LENGTHS = (9, 10, 16, 17, 32, 64, 128, 255)
 
@@ -6971,6 +7008,148 @@ def r17_function(L, R, H, hdr, rel, fname):
     return n_ob
 
 
+# ========================================== callers' premise: the cell-allocation table holds what the message describes
+
+F_GIE = "src/shared/libosmocore/src/gsm/gsm48_ie.c"
+FN_FL = "gsm48_decode_freq_list"
+
+
+def _mask_effect(fm, w, lv, flag):
+    """what a store into a `.mask` of the table does to the bits of `flag`: "clear" (every flag bit is 0 afterwards),
+    "set" (a flag bit that was 0 can be 1 afterwards) or "keep" -- folded per bit over (old value, flag) for stores built
+    from the old value, the flag, constants and ~ & | ^ (bitwise: each bit position sees all four combinations)"""
+    old_txt = ctext(lv)
+
+    def val(e, old, fl):
+        e = strip(e, casts=True)
+        k = kind(e)
+        if k == "IntegerLiteral":
+            return int(e.get("value"))
+        if k == "DeclRefExpr" and e.get("referencedDecl", {}).get("name") == flag:
+            return fl
+        if k == "MemberExpr" and ctext(e) == old_txt:
+            return old
+        if k == "UnaryOperator" and e.get("opcode") == "~":
+            return ~val(kids(e)[0], old, fl)
+        if k == "BinaryOperator" and e.get("opcode") in ("&", "|", "^"):
+            a, b = (val(x, old, fl) for x in kids(e))
+            return a & b if e.get("opcode") == "&" else a | b if e.get("opcode") == "|" else a ^ b
+        c = fm.tu.fold(e)
+        if c is None:
+            raise AnalysisError("%s(): value stored into `%s` (`%s`) is not a bitwise term of the old value and `%s`" % (
+                FN_FL, old_txt, ctext(e)[:40], flag))
+        return c
+    if w.how not in ("assign", "aug&=", "aug|=", "aug^="):
+        raise AnalysisError("%s(): store `%s` into the table is not classified" % (FN_FL, ctext(w.ast)[:50]))
+    sets = keeps = False
+    for old in (0x00, 0xff):
+        for fl in (0x00, 0xff):
+            v = val(w.val, old, fl)
+            new = (v if w.how == "assign" else old & v if w.how == "aug&=" else old | v if w.how == "aug|=" else old ^ v) & 0xff
+            sets = sets or bool(new & fl & ~old)
+            keeps = keeps or bool(new & fl)
+    return "set" if sets else "keep" if keeps else "clear"
+
+
+def _clearing_loop(fm, w, lv):
+    """(loop facts, range of the indices cleared, None) when the clearing store w is executed once for every value of the
+    counter of a counted loop that can only be left when the count is complete (then everything behind the loop sees those
+    entries without the flag); else (None, None, why not)"""
+    loops = fm.enclosing_loops(w.node)
+    if not loops:
+        return None, None, "`%s` is not in a loop" % ctext(w.ast)[:40]
+    try:
+        li = fm.loop(loops[0])
+        hi = fm.loop_hi(li, {})
+    except AnalysisError as e:
+        return None, None, str(e)
+    idx = fm.lower(kids(strip(kids(lv)[0]))[1])
+    if idx != X.V(li["var"]) or li["skips"]:
+        return None, None, "index `%s` is not the plain loop counter `%s`" % (X.show(idx), li["var"])
+    region, c = li["region"], li["cond"]
+    if not fm.g.dominates(w.node, li["inc"]):
+        return None, None, "the store is not executed before every step of the counter"
+    for n in fm.g.nodes:
+        if n.id in region and n is not c and any(s.id not in region for (s, _) in n.succ):
+            return None, None, "the loop can be left before the count is complete"
+    return li, range(li["init"], hi), None
+
+
+def r18_fresh_allocation(L, sl, tier):
+    """C20.R18 -- premise of the clauses "exactly the cell-allocation channels whose bit is set" and "never a channel outside
+    the cell allocation" on the callers' side (with C20.R17): the table the Mobile Allocation decoder reads must hold the cell
+    allocation the Cell Channel Description of the message describes, and nothing else.  The table outlives messages (SI 1,
+    then the description of an ASSIGNMENT / HANDOVER COMMAND is decoded into the same table), so gsm48_decode_freq_list()
+    may set the flag of a channel only after it took the flag from EVERY entry: each store that can set a flag bit is
+    dominated by the exit of a counted loop over all indices whose body clears the flag (effect of the stores folded per
+    bit; the loops by their counter facts; the index ranges of all clearing loops that dominate the store are united).
+    A set that is reached while some entry provably kept its flag merges the description into the stale allocation: the
+    bitmap then selects channels of the old cell -- violation.  A clearing of unknown extent on the way gives no verdict."""
+    R = "C20.R18"
+    N = sl[1]["NFREQ"]
+    tu = TU(L.repo, "libosmo", "src/gsm/gsm48_ie.c", L=L)
+    fd = tu.func(FN_FL)
+    L.fn(F_GIE, FN_FL)
+    fm = FM(tu, fd, dup_ok=True)
+    ps = tu.fparams(fd)
+    if len(ps) != 5 or "gsm_sysinfo_freq *" not in ps[0].get("type", {}).get("qualType", ""):
+        raise AnalysisError("%s(): signature changed (table, octets, length, format mask, flag expected)" % FN_FL)
+    table, flag = ps[0].get("name"), ps[4].get("name")
+    for p in (table, flag):
+        if not fm.never_written(p) or p in fm.dups:
+            raise AnalysisError("%s(): parameter `%s` is written, shadowed or has its address taken" % (FN_FL, p))
+    stores = {}
+    for w in fm.memwrites:
+        lv = strip(kids(w.ast)[0])
+        sb = strip(kids(lv)[0]) if kind(lv) == "MemberExpr" and not lv.get("isArrow") else None
+        if sb is not None and kind(sb) == "ArraySubscriptExpr" and _ref_name(kids(sb)[0]) == table:
+            stores[id(strip(kids(sb)[0]))] = (w, lv)
+    in_lv = {id(x) for w in fm.memwrites for x in walk(kids(w.ast)[0])}
+    for (un, a) in fm.uses.get(table, []):
+        if id(a) not in stores:
+            p = fm.parent(a)
+            pp = fm.parent(p) if p is not None and kind(p) == "ArraySubscriptExpr" else None
+            if pp is None or kind(pp) != "MemberExpr" or id(a) in in_lv:
+                raise AnalysisError("%s(): the table `%s` is used other than by reading / storing a member of an entry (line %s)" % (
+                    FN_FL, table, fm.line(a)))
+    sets, clears = [], []
+    for (w, lv) in stores.values():
+        if lv.get("name") != "mask":
+            continue
+        eff = _mask_effect(fm, w, lv, flag)
+        (sets if eff == "set" else clears if eff == "clear" else []).append((w, lv))
+    L.floor(R, "stores in %s() that set the flag of a channel" % FN_FL, len(sets), 5)
+    loops, open_ = [], []       # recognised clearing loops / clearing stores whose extent is not known
+    for (w, lv) in clears:
+        li, rng, why = _clearing_loop(fm, w, lv)
+        if li is None:
+            open_.append((w, why))
+        else:
+            loops.append((li, rng))
+    bad = missing = unproven = None
+    for (w, lv) in sorted(sets, key=lambda s: fm.line(s[0].ast) or 0):
+        covered = set()
+        for (li, rng) in loops:
+            if w.node.id not in li["region"] and fm.g.dominates(li["cond"], w.node):
+                covered |= set(rng)
+        left = [k for k in range(N) if k not in covered]
+        if not left:
+            continue
+        if any(w.node.id in fm.reach_succ(cw.node) for (cw, _) in open_):
+            unproven = unproven or w        # a clearing of unknown extent may come first
+        elif bad is None:
+            bad, missing = w, left
+    if bad is None and unproven is not None:
+        raise AnalysisError("%s(): `%s` follows a clearing of the flag that is not recognised as one of the whole table (%s)" % (
+            FN_FL, ctext(unproven.ast)[:50], "; ".join(y for (_, y) in open_)[:160]))
+    L.ob(R, F_GIE, FN_FL, "every store that sets the flag of a channel in the table comes after the flag was taken from all %d entries "
+         "(the table then holds exactly the channels of THIS description, the cell allocation the Mobile Allocation is decoded against)" % N,
+         "%d setting stores, each dominated by a complete clearing loop" % len(sets),
+         "%d setting stores, each dominated by a complete clearing loop" % len(sets) if bad is None else
+         "`%s` can be reached while `%s` was not taken from entry %s: the description is merged into the allocation left in the table" % (
+             ctext(bad.ast)[:60], flag, brief(missing) if len(missing) < N else "0 .. %d (no clearing on that path)" % (N - 1)), bad is None, fm.line(bad.ast) if bad is not None else tu.line(fd))
+
+
 # ========================================== callers: the received bitmap is the one that is rendered
 
 def lvalue_object(fm, e, at):
@@ -8612,3 +8791,4 @@ def run(L, tier):
     L.stage(r14_received, L, tier)      # callers: the bitmap received for a description is the one rendered from it
     L.stage(r16_band, L, tier)          # callers: the band conversion behind the decoder keeps every entry a cell-allocation channel
     L.stage(r17_own_allocation, L, tier)    # callers: a Cell Channel Description of the message is decoded into the table the decoder reads
+    L.stage(r18_fresh_allocation, L, sl, tier)  # ... and that table holds nothing but the channels of this description
